@@ -38,6 +38,7 @@ func DomFacts(b *ssa.BasicBlock) []Fact {
 			out = append(out, edgeFacts(cur.Preds[0], cur, 0)...)
 		}
 	}
+	out = append(out, EnumRefine(out)...)
 	return out
 }
 
@@ -649,6 +650,65 @@ func PathFacts(sfx []*ssa.BasicBlock) []Fact {
 	return out
 }
 
+// EnumRefine: several tests of one enum-like local (a phi of integer constants) along a path
+// narrow down which incoming edge the phi took: `switch k { case A: .. case B: .. default: }`
+// reaches default knowing k != A and k != B. When exactly one incoming edge remains possible,
+// what that edge established holds (returned as extra facts).
+func EnumRefine(fs []Fact) []Fact {
+	type cons struct {
+		op token.Token
+		k  int64
+	}
+	by := map[*ssa.Phi][]cons{}
+	for _, f := range fs {
+		if f.Op == token.ILLEGAL {
+			continue
+		}
+		for _, pr := range [][2]ssa.Value{{f.X, f.Y}, {f.Y, f.X}} {
+			ph, isPhi := pr[0].(*ssa.Phi)
+			k, isK := ConstInt(pr[1])
+			if !isPhi || !isK {
+				continue
+			}
+			op := f.Op
+			if pr[0] != f.X {
+				op = swapOp[op]
+			}
+			by[ph] = append(by[ph], cons{op, k})
+		}
+	}
+	var out []Fact
+	for ph, cs := range by {
+		if len(cs) < 2 {
+			continue // a single test is handled where the fact is made
+		}
+		live := -1
+		n := 0
+		allConst := true
+		for i, e := range ph.Edges {
+			ek, isC := ConstInt(e)
+			if !isC {
+				allConst = false
+				break
+			}
+			ok := true
+			for _, c := range cs {
+				if !cmpHolds(c.op, ek, c.k) {
+					ok = false
+				}
+			}
+			if ok {
+				live = i
+				n++
+			}
+		}
+		if allConst && n == 1 {
+			out = append(out, upFacts(ph.Block().Preds[live], ph.Block(), 1)...)
+		}
+	}
+	return out
+}
+
 // CutSpecPS is CutSpec with a facts-based cut predicate evaluated path-sensitively.
 type CutSpecPS struct {
 	Fn     *ssa.Function
@@ -710,7 +770,9 @@ func CutReachPS(s CutSpecPS) []*ssa.BasicBlock {
 				if !feasible || contradictsPath(fs, sfx) {
 					continue
 				}
-				if s.Cut != nil && s.Cut(append(fs, PathFacts(sfx)...)) {
+				all := append(fs, PathFacts(sfx)...)
+				all = append(all, EnumRefine(all)...)
+				if s.Cut != nil && s.Cut(all) {
 					continue
 				}
 			}
